@@ -420,10 +420,31 @@ fn apply_alignment(
                     }
                 }
             }
+            // The columns are re-assembled from parts of the tag (name, type node, description ...).
+            // Anything those parts do not cover (`(` of a parenthesized type, `(partial)`, generic
+            // parameters of an alias, a quoted field key ...) would be lost or doubled: only use the
+            // aligned line when it has exactly the characters of the plainly rendered line.
+            if line_text_without_spaces(&new_line) != line_text_without_spaces(&result[li]) {
+                continue;
+            }
             result[li] = new_line;
         }
     }
     result
+}
+
+fn line_text_without_spaces(line: &[DocIR]) -> String {
+    let mut text = String::new();
+    for doc in line {
+        match doc {
+            DocIR::Text(t) => text.push_str(t),
+            DocIR::SourceToken(t) => text.push_str(t.text()),
+            DocIR::SyntaxToken(kind) => text.push_str(kind.syntax_text().unwrap_or_default()),
+            _ => {}
+        }
+    }
+    text.retain(|c| !c.is_whitespace());
+    text
 }
 
 fn find_tag_at_line(c: &LuaComment, target: usize) -> Option<LuaDocTag> {
